@@ -343,12 +343,21 @@ def _worker_init(prop):
   prop.setup_impl()
 
 
+_TAINTED = False      # this worker aborted a case asynchronously: its process state is suspect
+
+
 def _run_one_retry(case):
   return _run_one(case, scale=5)
 
 
 def _run_one(case, scale=1):
+  global _TAINTED
   prop = _WORKER_PROP
+  if _TAINTED:
+    # The time-out signal interrupted an earlier case at an arbitrary point (possibly inside a
+    # context manager of the library): nothing this process observes afterwards is believed.
+    # The case is handed back and run again in a fresh worker.
+    return {'timeout': True, 'tainted': True}
   # The watchdog counts CPU time of this process (ITIMER_PROF), so that a loaded machine cannot
   # turn a slow case into a spurious time-out; a much longer wall-clock limit catches blocking.
   signal.signal(signal.SIGPROF, _alarm)
@@ -358,6 +367,7 @@ def _run_one(case, scale=1):
   try:
     out = prop.impl(case)
   except CaseTimeout:
+    _TAINTED = True
     out = {'timeout': True}
   except Exception as e:
     frames = traceback.extract_tb(e.__traceback__)
@@ -377,20 +387,39 @@ def _run_one(case, scale=1):
 
 
 def run_impl(prop, cases, jobs):
+  global _TAINTED
   if jobs <= 1 or len(cases) < 32:
     _worker_init(prop)
-    return [_run_one(c) for c in cases]
+    _TAINTED = False
+    outs = []
+    for c in cases:
+      outs.append(_run_one(c))
+      _TAINTED = False        # sequential mode (replays, shrinking): one process, best effort
+    return outs
   ctx = multiprocessing.get_context('fork')
   with ctx.Pool(jobs, initializer=_worker_init, initargs=(prop,)) as pool:
     outs = pool.map(_run_one, cases, chunksize=max(1, len(cases) // (jobs * 8)))
   # A time-out is only believed after a second, unhurried attempt: the first case of a worker pays
-  # for the library import, and a heavily loaded machine inflates CPU time as well. The retry runs
-  # alone in a fresh process with five times the budget; a genuine hang still times out.
+  # for the library import, a heavily loaded machine inflates CPU time as well, and whatever a
+  # worker ran AFTER a time-out is not believed at all (see _TAINTED). Cases handed back by a
+  # tainted worker are run again in fresh workers; cases that really timed out are run again,
+  # each in a process of its own, with five times the budget. A genuine hang still times out.
+  for _ in range(4):
+    tainted = [i for i, o in enumerate(outs) if isinstance(o, dict) and o.get('tainted')]
+    if not tainted:
+      break
+    with ctx.Pool(min(jobs, len(tainted)), initializer=_worker_init, initargs=(prop,)) as pool:
+      redo = pool.map(_run_one, [cases[i] for i in tainted],
+                      chunksize=max(1, len(tainted) // (jobs * 8)))
+    for i, o in zip(tainted, redo):
+      outs[i] = o
   late = [i for i, o in enumerate(outs) if isinstance(o, dict) and o.get('timeout')]
-  if 0 < len(late) <= 24:
-    with ctx.Pool(1, initializer=_worker_init, initargs=(prop,)) as pool:
-      for i in late:
-        outs[i] = pool.apply(_run_one_retry, (cases[i],))
+  if 0 < len(late) <= 200:
+    with ctx.Pool(min(jobs, len(late), 4), initializer=_worker_init, initargs=(prop,),
+                  maxtasksperchild=1) as pool:
+      redo = pool.map(_run_one_retry, [cases[i] for i in late], chunksize=1)
+    for i, o in zip(late, redo):
+      outs[i] = o
   return outs
 
 
